@@ -384,12 +384,19 @@ def one_case(ctx, rng, wd, force_N=None, force_T=None):
         acc /= (T - n_t)
         s4file = os.path.join(wd, "s4.csv") if rng.random() < 0.25 else ""
         prior = bool(rng.random() < 0.4)      # history: another S4 request (other lag, other wave-number range) on the same object first
+        prior_same_lag = bool(rng.random() < 0.5)
+        prior_mask = rng.random((T, N)) < 0.7
+        prior_mask[:, :2] = True
 
         def s4call():
             obj = Dynamics(**kw)
             if prior:
                 try:
-                    obj.sq4(t=float((ts[1] - ts[0]) * dt), qrange=qrange * 0.55, condition=None)
+                    if prior_same_lag:
+                        # ... the SAME lag and range with another selection: whatever the object keeps per (lag, range) must not carry it over
+                        obj.sq4(t=tchar, qrange=qrange, condition=prior_mask)
+                    else:
+                        obj.sq4(t=float((ts[1] - ts[0]) * dt), qrange=qrange * 0.55, condition=None)
                 except ZeroDivisionError:
                     pass
                 ctx.count("sq4_object_history")
